@@ -993,6 +993,9 @@ class TaintInterp:
                     r |= labels(a)
                 for a in kw.values():
                     r |= labels(a)
+                if n in ("min", "max", "numpy.clip", "numpy.minimum", "numpy.maximum", "numpy.fmin", "numpy.fmax") and len(args) + len(kw) >= 2:
+                    # a setting that is CLAMPED on the way is no longer the user's setting for every value: recorded as 'clamp:<label>'
+                    r |= frozenset("clamp:" + l for l in r if l.startswith(("hc:", "sc:")))
                 return T(noval(r) if n in PREDICATES else r)
         r = EMPTY
         for a in args:
